@@ -11,6 +11,6 @@ Next == c.stage = "root" /\ \E p \in Pool : c' = [stage |-> "leaf", p |-> p]
 Spec == Init /\ [][Next]_c
 Leaf == c.stage = "leaf"
 Sane == Leaf => MetaSane(Ont(c.p))
-Emit == Leaf => PrintT(<<"REPLAY", ToJson([ bytes |-> Encode(Ont(c.p), 3), sets |-> SetMetas(Ont(c.p)),
+Emit == Leaf => PrintT(<<"REPLAY", ToJson([ bytes |-> Encode(Ont(c.p), 3), sets |-> SetMetas(Ont(c.p)), terms |-> TermMetas(Ont(c.p)),
                                              modifier |-> Sorted(ModRoots(Ont(c.p))), categories |-> Sorted(CatRoots(Ont(c.p))) ])>>)
 =============================================================================
